@@ -4,7 +4,7 @@
     which func was called, in call order.  [find_root_h] additionally tags how a number was reached.
     [ROps] is the real-number instance; f is an ARBITRARY function R -> R unless continuity is stated. *)
 From Coq Require Import Reals ZArith List Bool.
-From LP Require Import Num NumR C02_Model C02_Proofs.
+From LP Require Import Num NumR C02_Model C02_Proofs C02_Proofs2.
 Import ListNotations.
 Local Open Scope R_scope.
 
@@ -124,3 +124,45 @@ Theorem C02_linear_exact (m q a b acc : R) : (m * Rmin a b + q) * (m * Rmax a b 
   (Ok (- q / m), [Rmin a b; Rmax a b; (Rmin a b + Rmax a b) / 2; - q / m]).
 Proof. exact (linear_exact m q a b acc). Qed.
 Print Assumptions C02_linear_exact.
+
+(** The iteration limit (const int Max_Iterations = 2200) is never the reason for returning a wrong number:
+    Find_Root returns through it (the path that prints "Iterations exceed the maximum") only when the bracket is
+    at least acc * 2^2200 wide ... *)
+Theorem C02_iteration_cap_needs_wide (f : R -> R) (a b acc x : R) :
+  fst (find_root_h ROps f a b acc) = Ok (x, HMaxIter) -> acc * 2 ^ max_iterations <= Rmax a b - Rmin a b.
+Proof. exact (max_iter_needs_wide f a b acc x). Qed.
+Print Assumptions C02_iteration_cap_needs_wide.
+
+(** ... hence never for a bracket and an accuracy that doubles can express (width at most 2^1025, accuracy at
+    least the smallest positive double 2^-1074): the answer then always comes from an exact zero or from a
+    sign-change bracket narrower than acc (C02_outcomes), however many decades the bracket spans. *)
+Theorem C02_iteration_cap_unreached (f : R -> R) (a b acc : R) :
+  Rmax a b - Rmin a b <= 2 ^ 1025 -> / 2 ^ 1074 <= acc ->
+  forall x, fst (find_root_h ROps f a b acc) <> Ok (x, HMaxIter).
+Proof. exact (iteration_cap_unreached_doubles f a b acc). Qed.
+Print Assumptions C02_iteration_cap_unreached.
+
+(** "A bracket end that is itself a zero is returned as is", on EVERY instance of the number interface — on IEEE
+    doubles in particular when the value at the other end is infinite (x^3 - 8 on [2, 1e200]): with neither end
+    value NaN, an end with Sign(f(end)) == 0 and f(end) == 0 (on doubles: f(end) = +-0) is returned after the two
+    end evaluations, the left one first. *)
+Theorem C02_end_zero_any_instance {T : Type} (Ops : NumOps T) (f : T -> T) (a b acc : T) :
+  let xl := if ngtb Ops a b then b else a in
+  let xr := if ngtb Ops a b then a else b in
+  nisnan Ops (f xl) = false -> nisnan Ops (f xr) = false ->
+  (sign1 Ops (f xl) = 0%Z -> neqb Ops (f xl) (nofZ Ops 0) = true ->
+     find_root Ops f a b acc = (Ok xl, [xl; xr])) /\
+  (sign1 Ops (f xr) = 0%Z -> neqb Ops (f xl) (nofZ Ops 0) = false -> neqb Ops (f xr) (nofZ Ops 0) = true ->
+     find_root Ops f a b acc = (Ok xr, [xl; xr])).
+Proof. exact (end_zero_any_instance Ops f a b acc). Qed.
+Print Assumptions C02_end_zero_any_instance.
+
+(** Histories (several requests served by one process, [find_root_seq]): Find_Root keeps nothing between calls,
+    so the k-th request is answered exactly as if it were the only one ([serve] = find_root_h on that request),
+    provided every earlier request returned a number (an exit ends the process and the history). *)
+Theorem C02_history_independent {T : Type} (Ops : NumOps T) (reqs : list ((T -> T) * T * T * T)) (k : nat) q :
+  (forall j p, (j < k)%nat -> nth_error reqs j = Some p -> exists v, fst (serve Ops p) = Ok v) ->
+  nth_error reqs k = Some q ->
+  nth_error (find_root_seq Ops reqs) k = Some (serve Ops q).
+Proof. exact (seq_history_independent Ops reqs k q). Qed.
+Print Assumptions C02_history_independent.
